@@ -24,7 +24,7 @@ m = {
     "hooks": {
         "guard": "verif",
         "enable": "go build -tags verif -overlay /verif/.work/overlay.json (white-box accessor harness/overlay/*.go and the harness package are mapped into /repo's module at build time; nothing is written to /repo)",
-        "baseline_off_cmd": "cd /repo && GOFLAGS=-mod=mod GOPROXY=off go test -vet=off -count=1 ./...",
+        "baseline_off_cmd": "cd /repo && GOFLAGS=-mod=mod GOPROXY=off go test -vet=off -count=1 ./varlink/... ./cmd/varlink-go-interface-generator/",
         "source_commits": [],
         "add_only": True,
     },
